@@ -55,6 +55,16 @@ fn main() {
             "--out" => { out = args[i + 1].clone(); i += 2; }
             "--map" => { map = args[i + 1].clone(); i += 2; }
             "--raw" => { raw.push(args[i + 1].clone()); i += 2; }
+            "--list" => {
+                // inventory: every function of /repo/src the index knows (key, file:line, origin)
+                let idx = index::Index::build(&format!("{}/src", repo));
+                for (k, v) in &idx.fns {
+                    for f in v {
+                        println!("{}\t{}:{}-{}\t{}", k, f.file, f.line, f.end_line, f.from_macro.clone().unwrap_or_default());
+                    }
+                }
+                return;
+            }
             "--lenient" => { rewrite::LENIENT.store(true, std::sync::atomic::Ordering::Relaxed); i += 1; }
             other => die(&format!("unknown argument {}", other)),
         }
